@@ -6,6 +6,15 @@
 
   corr   : boundaries of the real tree's tokens vs the Lean lexer (the parser may split a lexeme — only the
            documented kinds — and re-kinds many; kinds are advisory tags) / include errors vs the Lean model
+           Systematic re-kindings observed (tags `rekind:<lexeme>><tree>`), all by `eat_remap`/`eat_tag` in the grammar:
+             Ident > Tag | GlyphName | GlyphNameOrRange | Label | GlyphsNumberIdent | BaseKw | LigatureKw | …(contextual
+             keywords the lexer does not know); MarkKw/NameKw/FlagKw > Tag; any keyword > GlyphName in glyph position;
+             StringUnterminated > String and HexEmpty > Hex (with an error, parser.rs `validate_new_token`).
+           Splits observed (tags `split:<lexeme>><tree>`): Path > Whitespace Path Whitespace; Ident > GlyphsNumberIdent |
+             Hyphen | Slash | Number | Float inside `${…}`; Number/Float > Hyphen + Number/Float inside `${…}`;
+             with a glyph map Ident > GlyphName Hyphen GlyphName (a range).  No gluing of lexemes occurs (`do_bump::<N>`
+             is only used with N = 1).  The parser also pushes zero-length `Eof` tokens into the tree when it
+             "eats" at the end of input, and — on a NUL byte — a 1-byte `Eof` token (tag eof-token-nonempty).
   oracle : the property on the implementation's output, independent of the model
 -/
 import Driver.Common
@@ -182,10 +191,11 @@ def handleLex : Handler := fun s =>
     let cmp := compareToks (mToks.length + iToks.length + 2) mToks iToks modelTotal {}
     let totalOk := if nulPos.isSome then modelTotal ≤ implTotal else modelTotal == implTotal
     let corr := cmp.ok && totalOk
-    -- if the real lexer no longer agrees on an input with a NUL byte, does it agree with the *fixed* model
-    -- (fixes/C13-nul.patch)?  Then the patch has landed and `modelToks` must be switched to `lexAllFixed`.
+    -- On inputs with a NUL byte only the text in front of the first NUL is compared above (behind it the
+    -- unchanged parser either stops or eats the NUL as a 1-byte `Eof` token and goes on).  Advisory: does the whole
+    -- tree agree with the lexer *with* the proposed fix (fixes/C13-nul.patch)?  True once the patch has landed.
     let agreesWithFixed :=
-      if corr || nulPos.isNone then false else
+      if nulPos.isNone then false else
         let fToks := toksOf (lexAllFixed inp)
         let fTotal := match fToks.getLast? with | some t => t.stop | none => 0
         (compareToks (fToks.length + iToks.length + 2) fToks iToks fTotal {}).ok && fTotal == implTotal
@@ -212,9 +222,9 @@ def handleLex : Handler := fun s =>
       else ""
     let oracle := cls == ""
     let cls := if !oracle then cls else if !corr then
-      (if agreesWithFixed then "lexer-has-nul-fix" else if !cmp.ok then "boundaries" else "total-length") else ""
+      (if !cmp.ok then "boundaries" else "total-length") else ""
     let tags := baseTags ++ cmp.tags.reverse ++ [s!"validate:{stageWord validate}", s!"compile:{stageWord compile}"] ++
-      (if diags.isEmpty then [] else ["parse-diags"]) ++ (if isPanic compile then ["compile-panic"] else []) ++
+      (if diags.isEmpty then [] else ["parse-diags"]) ++ (if agreesWithFixed then ["nul:matches-fixed-lexer"] else []) ++ (if isPanic compile then ["compile-panic"] else []) ++
       (if toks.any (fun t => t.1 == "Eof" && !t.2.isEmpty) then ["eof-token-nonempty"] else [])
     let detail :=
       if !oracle then
